@@ -1,0 +1,61 @@
+//go:build verif
+// +build verif
+
+package tengo
+
+// Instrumentation for deterministic simulation; compiled only with the
+// "verif" build tag. The hook never changes interpreter state: a simulator
+// parks the calling goroutine in it or panics from it (fault injection).
+
+// Exported site identifiers.
+const (
+	VerifVMRunEnter       = verifVMRunEnter
+	VerifVMStep           = verifVMStep
+	VerifVMRunExit        = verifVMRunExit
+	VerifRunCtxEnter      = verifRunCtxEnter
+	VerifVMGoStart        = verifVMGoStart
+	VerifVMGoEnd          = verifVMGoEnd
+	VerifVMGoPanic        = verifVMGoPanic
+	VerifRunCtxSpawned    = verifRunCtxSpawned
+	VerifRunCtxCancelSeen = verifRunCtxCancelSeen
+	VerifRunCtxAborted    = verifRunCtxAborted
+	VerifRunCtxReturn     = verifRunCtxReturn
+	VerifLockR            = verifLockR
+	VerifLockW            = verifLockW
+)
+
+// VerifHook, when non-nil, is called at every instrumented site.
+var VerifHook func(site int, c *Compiled, v *VM)
+
+func verifAt(site int, c *Compiled, v *VM) {
+	if h := VerifHook; h != nil {
+		h(site, c, v)
+	}
+}
+
+// VerifPeek returns the position of the VM (read-only observation; must be
+// called on the goroutine that runs the VM).
+func (v *VM) VerifPeek() (ip, sp, frames int, op byte) {
+	ip, sp, frames = v.ip, v.sp, v.framesIndex
+	if n := v.ip + 1; n >= 0 && n < len(v.curInsts) {
+		op = v.curInsts[n]
+	}
+	return
+}
+
+// VerifTryLock reports whether the object's lock could be taken right now in
+// the given mode; the lock is released again before returning.
+func (c *Compiled) VerifTryLock(write bool) bool {
+	if write {
+		if c.lock.TryLock() {
+			c.lock.Unlock()
+			return true
+		}
+		return false
+	}
+	if c.lock.TryRLock() {
+		c.lock.RUnlock()
+		return true
+	}
+	return false
+}
